@@ -1,5 +1,5 @@
 (* Checkers of the C19 correspondence run. *)
-From V Require Import Common.Base C18.Pieces C18.Harness C19.Metafile C19.Json C19.JsonSpec C19.JsonProofs C19.Layout C19.Doc.
+From V Require Import Common.Base C18.Pieces C18.Harness C19.Metafile C19.Json C19.JsonSpec C19.JsonProofs C19.Layout C19.Doc C19.Scan.
 
 (* accurateFinalByteCount on the per-input slices of a chunk:
    (prefix, nfiles, nchunks, path table, segments (owner or -1, bytes), trailer,
@@ -53,3 +53,16 @@ Definition check_doc := mismatches doc_ok.
 Definition gen_ok (c : bool * bool * list (bytes * bytes) * bytes) : bool :=
   let '(mini, ascii, rs, g) := c in zlist_eqb (metafile_bytes mini ascii [] rs) g.
 Definition check_gen := mismatches gen_ok.
+
+(* processScannedFiles on one importer of an api.Build: (paths by source index,
+   visited keys, records, imports read from the metafile) *)
+Definition bb_list_eqb (a b : list (bytes * bytes)) : bool := list_eqb bb_eqb a b.
+Definition iimp_eqb (a b : iimp) : bool :=
+  zlist_eqb (ii_path a) (ii_path b) && zlist_eqb (ii_kind a) (ii_kind b)
+  && Bool.eqb (ii_external a) (ii_external b)
+  && option_eqb zlist_eqb (ii_original a) (ii_original b)
+  && bb_list_eqb (ii_with a) (ii_with b).
+Definition scan_ok (c : list bytes * list (bytes * Z) * list irec * list iimp) : bool :=
+  let '(tab, visited, recs, g) := c in
+  list_eqb iimp_eqb (map (import_of (fun i => nth (Z.to_nat i) tab []) visited) recs) g.
+Definition check_scan := mismatches scan_ok.
